@@ -35,8 +35,8 @@ from ..gen import F32, F64, pick
 F16, BF16 = torch.float16, torch.bfloat16
 
 RULE = (
-    "exhaustive: every sequence of length <= D (D = 2 quick, 3 thorough) over 16 operations {to(f32), to(f64), float(), double(), half(), "
-    "bfloat16(), to(f64 tensor), to(f32 tensor), to(instrument declared f64), to(undeclared instrument), to(instrument=...), simulate, register_buffer (float and integer tensor), "
+    "exhaustive: every sequence of length <= D (D = 2 quick, 3 thorough) over 17 operations {to(f32), to(f64), float(), double(), half(), "
+    "bfloat16(), to(f64 tensor), to(f32 tensor), to(instrument declared f64), to(undeclared instrument), to(instrument=...), simulate, register_buffer (float tensor, integer tensor, a second name for the spot series), "
     "set_default_dtype(f64), to(int32) [must raise]} for each of 8 primaries (constructed with dtype None and f64) and 4 derivative "
     "wrappers (one on two underliers), under the float32 global default; plus seeded random sequences of length 4-10. After every operation the real object is compared "
     "with the reference state machine. distinct = distinct (target, operation sequence); trivial = sequences without simulate/register_buffer"
@@ -52,11 +52,11 @@ ANCHORS = ['pfhedge.instruments.primary.base:BasePrimary.to',
            'pfhedge.instruments.derivative.base:BaseDerivative.to',
            'pfhedge.stochastic._utils:cast_state']
 DECIDING = ["state_machine", "derived.dtype", "reject.int_dtype"]
-REQUIRED_BRANCHES = ["op.simulate_after_cast", "op.cast_after_simulate", "op.to_instrument", "op.register_buffer", "op.set_default", "derivative.alias", "derivative.two_underliers", "op.cast_alias_spelling"]
+REQUIRED_BRANCHES = ["op.simulate_after_cast", "op.cast_after_simulate", "op.to_instrument", "op.register_buffer", "op.set_default", "derivative.alias", "derivative.two_underliers", "op.cast_alias_spelling", "op.register_alias", "derived.criteria_in_half_precision"]
 
 PRIMS = ["brownian", "heston", "cir", "vasicek", "merton", "kou", "rbergomi", "localvol"]
 OPS = ["to_f32", "to_f64", "float", "double", "half", "bfloat16", "to_tensor64", "to_tensor32", "to_inst64", "to_inst_none", "to_inst_kw32", "simulate",
-       "register", "register_int", "default64", "to_int"]
+       "register", "register_int", "register_alias", "default64", "to_int"]
 
 
 class Spread(BaseDerivative):
@@ -166,6 +166,13 @@ def apply(op, target, model, prim, alt=False):
         t_ = torch.ones(2, 3, dtype=F32)
         prim.register_buffer("aux", t_)
         model.register("aux", F32)
+    elif op == "register_alias":
+        # a second name for a series the instrument already holds (the tensor is already in the instrument's dtype, so it is stored as it is)
+        src = prim._buffers.get("spot")
+        if src is None:
+            src = torch.ones(2, 3, dtype=F32)
+        prim.register_buffer("aux", src)
+        model.register("aux", src.dtype)
     elif op == "register_int":
         prim.register_buffer("aux", torch.arange(6).reshape(2, 3))  # an integer tensor: cast to the declared dtype like any other
         model.register("aux", torch.int64)
@@ -180,8 +187,12 @@ def apply(op, target, model, prim, alt=False):
 
 
 def agree(ctx, mon, prim, model, seq, target_label, deriv=None):
-    bufs = dict(prim.named_buffers())
+    bufs = {n: b for n, b in prim._buffers.items() if b is not None}  # every name the instrument holds (get_buffer / attribute access read these)
     sig = (target_label,) + tuple(seq)
+    listed = dict(prim.named_buffers())
+    if set(listed) != set(bufs) or any(listed[n] is not bufs[n] for n in listed):
+        ctx.violation(mon, "named_buffers", f"{target_label} after {seq}: named_buffers() lists {sorted(listed)} while the instrument holds {sorted(bufs)}", sig=sig, sequence=seq)
+        return False
     if prim.dtype is not model.d and prim.dtype != model.d:
         ctx.violation(mon, "declared_dtype", f"{target_label} after {seq}: instrument.dtype is {prim.dtype}, reference says {model.d}", sig=sig, sequence=seq)
         return False
@@ -277,8 +288,8 @@ def run_sequence(ctx, kind, ctor_dtype, wrapper, seq):
                 if cast_seen:
                     ctx.branch("op.simulate_after_cast")
                 simulated = True
-            elif op in ("register", "register_int"):
-                ctx.branch("op.register_buffer")
+            elif op in ("register", "register_int", "register_alias"):
+                ctx.branch("op.register_buffer" if op != "register_alias" else "op.register_alias")
             elif op.startswith("default"):
                 ctx.branch("op.set_default")
             elif op.startswith("to_inst"):
@@ -292,14 +303,47 @@ def run_sequence(ctx, kind, ctor_dtype, wrapper, seq):
                 return
             if prim2 is not None and not agree(ctx, mon, prim2, model, list(done), label + ".second_underlier", None):
                 return
-            ctx.ok(mon, sig=(label,) + tuple(done), trivial=not (simulated or "register" in done or "register_int" in done))
+            ctx.ok(mon, sig=(label,) + tuple(done), trivial=not (simulated or "register" in done or "register_int" in done or "register_alias" in done))
             # consumers are evaluated after *every* operation with persistent objects (derivative, listed hedge, hedger), so that
             # anything they cache across a cast / re-simulation is exposed
             if simulated and "aux" not in model.B:
+                if not criteria(ctx, prim, model, list(done), label):
+                    return
                 if not derived(ctx, kind, prim, model, deriv, list(done), label, persist):
                     return
     finally:
         torch.set_default_dtype(F32)
+
+
+def criteria(ctx, prim, model, seq, label):
+    """Losses / cash amounts of a P&L formed from the instrument's series carry its dtype - half precisions included where the backend computes them."""
+    from pfhedge.nn import EntropicLoss, EntropicRiskMeasure, ExpectedShortfall, IsoelasticLoss
+
+    x = model.B.get("spot")
+    if x is None or any(v != x for v in model.B.values()) or prim.spot.shape[1] < 2:
+        return True
+    mon = "derived.dtype"
+    with torch.no_grad():
+        pl = prim.spot[:, -1] - prim.spot[:, 0]
+        for crit, arg in ((EntropicRiskMeasure(), pl), (EntropicLoss(), pl), (ExpectedShortfall(0.5), pl), (IsoelasticLoss(0.5), prim.spot[:, -1].abs() + 1)):
+            for what in ("loss", "cash"):
+                if what == "cash" and isinstance(crit, IsoelasticLoss):
+                    continue  # (default search: its bracket arithmetic is C19's subject)
+                try:
+                    out = crit(arg) if what == "loss" else crit.cash(arg)
+                except RuntimeError:
+                    ctx.unsupported(mon)
+                    continue
+                ctx.seen(mon)
+                name = f"{type(crit).__name__}.{what}"
+                if out.dtype != x:
+                    ctx.violation(mon, "derived_dtype." + name, f"{label} after {seq}: {name} of a P&L in {x} has dtype {out.dtype}", sig=(label, name, str(x)),
+                                  sequence=seq, quantity=name)
+                    return False
+                if x in (F16, BF16):
+                    ctx.branch("derived.criteria_in_half_precision")
+                ctx.ok(mon, sig=(label.split("[")[0], name, str(x)))
+    return True
 
 
 def derived(ctx, kind, prim, model, deriv, seq, label, persist):
@@ -384,10 +428,10 @@ def drv_exhaustive(ctx, k, rng):
     for depth in range(1, D + 1):
         for tail in itertools.product(OPS, repeat=depth - 1):
             seq = (first,) + tail
-            if wrapper is not None and ({"register", "register_int"} & set(seq)):
+            if wrapper is not None and ({"register", "register_int", "register_alias"} & set(seq)):
                 continue
             # a sequence needs a simulate or register to say anything beyond the declared dtype; keep the cast-only ones at depth <= 2
-            if depth == 3 and not ({"simulate", "register", "register_int"} & set(seq)):
+            if depth == 3 and not ({"simulate", "register", "register_int", "register_alias"} & set(seq)):
                 continue
             run_sequence(ctx, kind, ctor_dtype, wrapper, seq)
             n += 1
@@ -404,7 +448,7 @@ def drv_random(ctx, k, rng):
     pool = OPS + ["to_cpu", "default32", "simulate", "simulate"]
     seq = tuple(pick(rng, pool) for _ in range(L))
     if wrapper is not None:
-        seq = tuple(o for o in seq if o not in ("register", "register_int"))
+        seq = tuple(o for o in seq if o not in ("register", "register_int", "register_alias"))
     run_sequence(ctx, kind, ctor_dtype, wrapper, seq)
     if k < 5:
         ctx.sample({"driver": "random", "target": [kind, str(ctor_dtype), wrapper], "sequence": list(seq)})
